@@ -12,7 +12,7 @@
      took q dv r c t r'     0<=dv<=18, 0 <= t <= c, t multiple of the step, q*r < (t+step)*10^36, r' = r+t *)
 From Coq Require Import ZArith List Bool Lia.
 Import ListNotations.
-Require Import RV.Model.C41_Pool RV.Proof.C41_Pool.
+Require Import RV.Model.C41_Pool RV.Proof.C41_Pool RV.Proof.C41_Extra.
 Open Scope Z_scope.
 
 (* A redemption (and get_redemption_value) never pays more than the pro-rata share of each reserve
@@ -74,10 +74,8 @@ Qed.
    provided (a multiple of the step) and the reserve grows by exactly the amount taken, so
    provided = taken + change with change = what stays in the caller's bucket. New pool: see all_new
    (everything valid is taken). Pool with units: one 36-digit ratio q with m·10^36 <= q·S such that
-   every resource pays at least ⌊q·R_r/10^36⌋ rounded down to its step (took).
-   PARTIAL: the upper bound "taken_r <= (min_j c_j/R_j)·R_r up to the 36-digit precision slack" is
-   checked by the harness oracle on the implementation, not proved here. *)
-Theorem C41_change_no_loss_partial : forall k dvs p cs p' m ts,
+   every resource pays at least ⌊q·R_r/10^36⌋ rounded down to its step (took). *)
+Theorem C41_change_no_loss : forall k dvs p cs p' m ts,
   contribute k dvs p cs = POk (p', m, ts) ->
   kind_ok k dvs -> wf_divs dvs -> wf_pool dvs p -> Forall2 valid_amount dvs cs ->
   supply p' = supply p + m /\ 0 < m /\
@@ -91,15 +89,52 @@ Theorem C41_taken_within_provided : forall k dvs p cs p' m ts,
   wf_pool dvs p' /\ 0 < supply p' /\ Forall2 (fun t c => 0 <= t <= c) ts cs.
 Proof. exact contribute_wf. Qed.
 
-(* No panic, PARTIAL: redeem and get_redemption_value (calculate_amount_owed, burn, vault takes)
-   never reach a panicking path for amounts in the Decimal range. Not proved: the same for
-   contribute (its panicking paths are vault `put` overflow, excluded by the resource's total-supply
-   bound, and the unwrap in checked_nth_root); the harness reports any panic as a failure. *)
-Theorem C41_no_panic_partial : forall k dvs p u,
-  wf_divs dvs -> 0 <= u < 2 ^ 191 -> 0 <= supply p < 2 ^ 191 ->
-  Forall (fun r => 0 <= r < 2 ^ 191) (reserves p) ->
-  redeem k dvs p u <> PPanic /\ get_redemption k dvs p u <> PPanic.
-Proof. exact redeem_no_panic. Qed.
+(* Taken in the current ratio, upper side. Pool with units in circulation:
+   multi-resource pool — exact: taken_j·R_i <= c_i·R_j for every resource i with reserves, i.e.
+   taken_j <= (min_i c_i/R_i)·R_j;
+   two-resource pool — taken_j <= c_i·R_j/R_i + R_j/(R_i·10^18) + R_j/10^36 attos (ratio_upper is this
+   inequality multiplied out). The excess over the exact ratio is real: the blueprint compares its
+   two candidates at 36 digits and on a tie keeps the second one (harness counter
+   ratio_exceeded_within_36_digit_precision; e.g. R = (4e18, 43640360518335793289675144805308907827152616),
+   c = (6e18, 1.5·R2 + 1 atto): all of c2 is taken). The caller, never the pool, bears that excess. *)
+Theorem C41_taken_within_ratio_multi : forall dvs S rs cs p' m ts,
+  multi_contribute dvs S rs cs = POk (p', m, ts) ->
+  length dvs = length rs -> length rs = length cs -> 0 < S ->
+  Forall (fun y => 0 <= y < 2 ^ 191) rs -> Forall (fun y => 0 <= y < 2 ^ 191) cs ->
+  Forall2 (fun rj tj => Forall2 (fun ri ci => 0 < ri -> tj * ri <= ci * rj) rs cs) rs ts.
+Proof. exact multi_contribute_ratio. Qed.
+Theorem C41_taken_within_ratio_two : forall dv1 dv2 S r1 r2 c1 c2 p' m t1 t2,
+  two_contribute dv1 dv2 S r1 r2 c1 c2 = POk (p', m, [t1; t2]) ->
+  0 < S -> 0 <= r1 -> 0 <= r2 -> 0 <= c1 -> 0 <= c2 ->
+  (0 < r2 -> t1 * r2 * PP <= c2 * r1 * PP + r1 * DD + r1 * r2) /\
+  (0 < r1 -> t2 * r1 * PP <= c1 * r2 * PP + r2 * DD + r2 * r1).
+Proof. exact two_contribute_ratio. Qed.
+
+(* No panic: on every pool whose supply and reserves are Decimal-range values, no operation
+   (contribute, redeem, protected_deposit, protected_withdraw, get_redemption_value) reaches a
+   panicking path of the modelled code, provided the amounts are Decimal-range and a deposit or
+   contribution does not push a vault past the Decimal range (the resource manager's total-supply
+   bound guarantees that): vault put overflow, the assert!s of checked_round, the unwrap of
+   checked_nth_root and PreciseDecimal::from are all excluded. *)
+Theorem C41_no_panic : forall k dvs p o,
+  kind_ok k dvs -> wf_divs dvs -> pool_range dvs p -> op_range p o ->
+  snd (step_op k dvs p o) <> OutPanic.
+Proof. exact step_op_no_panic. Qed.
+
+(* Outside the statement (no clause of C41 is contradicted: nothing is paid out, nothing taken), but
+   a defect worth recording: a contribution with no or only empty buckets to a multi-resource pool
+   without units mints 1.0 pool unit (the geometric mean over zero contributions is the empty
+   product ONE; the one- and two-resource pools reject this case). The pool then has units and no
+   reserves, and every later contribution fails with NoMinimumRatio until the pool manager makes a
+   protected_deposit — which then belongs entirely to the holder of that unit. Replayed on the
+   engine by the harness in every run (scripted history, counter
+   empty_contribution_minted_pool_units). *)
+Theorem C41_empty_contribution_mints_one_unit :
+  exists p',
+    contribute KMulti [18; 2] (pool_new 2) [0; 0] = POk (p', 10 ^ 18, [0; 0]) /\
+    p' = {| supply := 10 ^ 18; reserves := [0; 0] |} /\
+    contribute KMulti [18; 2] p' [5 * 10 ^ 18; 3 * 10 ^ 18] = PErr ENoMinRatio.
+Proof. eexists. split; [vm_compute; reflexivity|]. split; [reflexivity|vm_compute; reflexivity]. Qed.
 
 (* non-vacuity: a two-resource pool (divisibilities 2 and 18) with units in circulation; an
    unbalanced contribution is accepted with change, mints units, and the round trip loses dust *)
@@ -123,7 +158,10 @@ Print Assumptions C41_no_round_trip_gain.
 Print Assumptions C41_unowned_reserves_go_to_first_contributor.
 Print Assumptions C41_reserves_nonneg.
 Print Assumptions C41_user_histories_have_no_unowned_reserves.
-Print Assumptions C41_change_no_loss_partial.
+Print Assumptions C41_change_no_loss.
+Print Assumptions C41_taken_within_ratio_multi.
+Print Assumptions C41_taken_within_ratio_two.
+Print Assumptions C41_empty_contribution_mints_one_unit.
 Print Assumptions C41_taken_within_provided.
-Print Assumptions C41_no_panic_partial.
+Print Assumptions C41_no_panic.
 Print Assumptions C41_nonvacuous.
